@@ -985,7 +985,10 @@ def remap_from_lambda(
     stream, new_body, return_type = remap_by_types(
         o_stream, known_types | {var_name: orig_type}, l_func.body
     )
-    return stream, ast.Lambda(l_func.args, new_body), return_type  # type: ignore
+    # The body is rewritten in place as it is followed; the lambda we were handed has to show the
+    # new body as well, or a call site rewritten at the root of a nested lambda's body is lost.
+    l_func.body = new_body  # type: ignore
+    return stream, l_func, return_type  # type: ignore
 
 
 def reset_global_functions():
